@@ -55,10 +55,13 @@ func genStall(t *rapid.T) (*Case, string) {
 		if p > 0 && rapid.IntRange(0, 2).Draw(t, "other owner") == 0 {
 			po = 1 + (o+p-1)%3
 		}
+		if rapid.IntRange(0, 4).Draw(t, "nil owner") == 0 {
+			po = 0 // logged with a nil owner: only Filter(nil, ...) may return these
+		}
 		c.Prods = append(c.Prods, Prod{
 			O:     po,
 			Count: rapid.IntRange(100, maxCount).Draw(t, "count"),
-			Types: rapid.SliceOfN(rapid.SampledFrom(logTypes), 1, 3).Draw(t, "types"),
+			Types: rapid.SliceOfN(genLogType, 1, 3).Draw(t, "types"),
 			Yield: rapid.SampledFrom([]int{0, 0, 0, 64}).Draw(t, "yield"),
 		})
 	}
